@@ -11,6 +11,8 @@ use zvcore::world::{self, Chunk, WMode};
 /// 0 Close: end-of-stream towards the socket, writes to the peer fail from then on
 /// 1 Reset: read error (connection reset), writes fail with ConnectionReset (not BrokenPipe)
 /// 2 WriteFail: nothing to read any more, the next library write fails
+/// 4 / 5: like 2, the writes failing with ConnectionReset / TimedOut (what the first write after a peer's RST, or a
+///   connection that timed out, answers) - an error kind is not a reason to treat the other peers differently
 /// 3 HalfClose: end-of-stream towards the socket while writes are still accepted (what the first writes after a
 ///   peer's FIN do: the kernel takes them); only the read side tells the socket that the peer is gone
 #[derive(Clone, Debug)]
@@ -127,7 +129,7 @@ pub fn scenario(pr: &Params) -> Verdict {
         // from now on the victim's connection does not accept writes
         // (after a reset the kernel answers writes with ECONNRESET, after an orderly close with EPIPE)
         if fault != 3 {
-            world::set_wmode(victim.from_lib, WMode::Fail(if fault == 1 { std::io::ErrorKind::ConnectionReset } else { std::io::ErrorKind::BrokenPipe }));
+            world::set_wmode(victim.from_lib, WMode::Fail(match fault { 1 | 4 => std::io::ErrorKind::ConnectionReset, 5 => std::io::ErrorKind::TimedOut, _ => std::io::ErrorKind::BrokenPipe }));
         }
         let phase = |label: &str| world::log(format!("-- {}", label));
         phase("recv until idle");
@@ -274,7 +276,7 @@ pub fn scenario(pr: &Params) -> Verdict {
         vs.len(),
         hs_len,
         pr.cut,
-        ["close (EOF, writes fail)", "reset (read error, writes fail)", "silence + failing writes", "half-close (EOF, writes still accepted)"][pr.fault as usize],
+        ["close (EOF, writes fail)", "reset (read error, writes fail)", "silence + failing writes (EPIPE)", "half-close (EOF, writes still accepted)", "silence + failing writes (ECONNRESET)", "silence + failing writes (ETIMEDOUT)"][pr.fault as usize],
         if pr.live_first { "attached first" } else { "attached second" }
     ) + if pr.late { " (the end comes after the live peer's traffic, inside a recv call that stays pending and is abandoned)" } else { "" };
     for p in world::panics() {
@@ -288,12 +290,12 @@ pub fn scenario(pr: &Params) -> Verdict {
     let v_attach_returned = world::cond("v-attach-returned");
     let recvs = recvs.borrow().clone();
     let sends = sends.borrow().clone();
-    let fault_name = ["close", "reset", "writefail", "halfclose"][pr.fault as usize];
+    let fault_name = ["close", "reset", "writefail", "halfclose", "writefail-reset", "writefail-timedout"][pr.fault as usize];
     if world::panics().is_empty() && !v.truncated {
         if !world::cond("done") {
             v.violate(format!("app-stuck/{}", ty.name()), format!("{}: the application's calls did not all return", what));
         }
-        if handshake_stage && pr.fault != 2 {
+        if handshake_stage && !matches!(pr.fault, 2 | 4 | 5) {
             if v_attach_ok {
                 v.violate("handshake-cut-admitted", format!("{}: attach succeeded although the peer's handshake was cut short", what));
             } else if !v_attach_returned {
@@ -338,7 +340,7 @@ pub fn scenario(pr: &Params) -> Verdict {
             }
         }
         // sends after the end was observed
-        if !handshake_stage || pr.fault == 2 {
+        if !handshake_stage || matches!(pr.fault, 2 | 4 | 5) {
             match ty {
                 Ty::Push | Ty::Dealer | Ty::Req => {
                     // at most one send may fail on the dead connection (that is how a write-only socket observes it); afterwards everything goes to the live peer
@@ -347,7 +349,7 @@ pub fn scenario(pr: &Params) -> Verdict {
                     // the dead connection is tried at most once (a socket that had no occasion to see the end finds out by
                     // writing); a socket whose recv already saw the end does not try it at all
                     let attempts = sends.iter().filter(|s| s.2 > 0).count();
-                    let seen_by_recv = ty == Ty::Dealer && pr.fault != 2;
+                    let seen_by_recv = ty == Ty::Dealer && !matches!(pr.fault, 2 | 4 | 5);
                     if fails > 1 || to_victim_after_first_failure || attempts > if seen_by_recv { 0 } else { 1 } {
                         v.violate(format!("send-routed-to-dead-peer/{}", ty.name()), format!("{}: sends after the connection ended: {:?} (name, ok, victim wire growth, live wire growth)", what, sends));
                     }
@@ -358,7 +360,7 @@ pub fn scenario(pr: &Params) -> Verdict {
                 Ty::Pub | Ty::XPub => {
                     // a publisher reads its subscribers' connections all the time, so it has seen a close or reset; failing
                     // writes alone are found out by the first publish
-                    if sends.iter().filter(|s| s.2 > 0).count() > if pr.fault == 2 { 1 } else { 0 } {
+                    if sends.iter().filter(|s| s.2 > 0).count() > if matches!(pr.fault, 2 | 4 | 5) { 1 } else { 0 } {
                         v.violate(format!("publish-written-to-dead-peer/{}", ty.name()), format!("{}: {:?}", what, sends));
                     }
                     // the live subscriber (subscribed to everything) gets every publish
@@ -368,7 +370,7 @@ pub fn scenario(pr: &Params) -> Verdict {
                 }
                 Ty::Sub => {
                     // every change of the subscription set reaches the live publisher, whatever the call returned
-                    if pr.fault != 2 && sends.iter().any(|s| s.2 > 0) {
+                    if !matches!(pr.fault, 2 | 4 | 5) && sends.iter().any(|s| s.2 > 0) {
                         v.violate("subscription-written-to-dead-peer/SUB", format!("{}: {:?} (call, ok, victim wire growth, live wire growth)", what, sends));
                     }
                     if sends.iter().any(|s| s.3 == 0) {
@@ -378,7 +380,7 @@ pub fn scenario(pr: &Params) -> Verdict {
                 Ty::Router => {
                     // a close or reset has been seen by recv: no send to that identity is accepted any more;
                     // failing writes alone are found out by the first send
-                    if sends.iter().filter(|s| s.0.starts_with("to-victim")).skip(if pr.fault == 2 { 1 } else { 0 }).any(|s| s.1) {
+                    if sends.iter().filter(|s| s.0.starts_with("to-victim")).skip(if matches!(pr.fault, 2 | 4 | 5) { 1 } else { 0 }).any(|s| s.1) {
                         v.violate("router-send-to-dead-peer-accepted", format!("{}: {:?}", what, sends));
                     }
                     if sends.iter().any(|s| s.0 == "to-live" && (!s.1 || s.3 == 0)) {
@@ -394,10 +396,10 @@ pub fn scenario(pr: &Params) -> Verdict {
         let wrote_and_failed = world::write_errors(victim.from_lib) > 0;
         let observable = match (ty, pr.fault) {
             (Ty::Push, _) => wrote_and_failed,
-            (_, 2) => wrote_and_failed,
+            (_, 2) | (_, 4) | (_, 5) => wrote_and_failed,
             _ => true,
         } && v_attach_ok;
-        if observable && !victim.released() && !(handshake_stage && pr.fault != 2) {
+        if observable && !victim.released() && !(handshake_stage && !matches!(pr.fault, 2 | 4 | 5)) {
             let which = match (world::reader_dropped(victim.to_lib).is_some(), world::writer_dropped(victim.from_lib).is_some()) {
                 (false, false) => "both-halves",
                 (true, false) => "write-half",
@@ -454,9 +456,13 @@ pub fn jobs(tier: Tier) -> Vec<Job> {
     for ty in ALL_TYPES {
         let (vs, hs_len) = victim_stream(ty);
         for cut in 0..=vs.len() {
-            for fault in 0..4u8 {
+            for fault in 0..6u8 {
                 // a half-close only tells sockets that read, and only once the peer has been admitted
                 if fault == 3 && (matches!(ty, Ty::Push | Ty::Req) || cut < hs_len) {
+                    continue;
+                }
+                // the other write-error kinds: for sockets that write, at the cuts between messages
+                if fault >= 4 && (!ty.can_send() && ty != Ty::Sub || !(cut == hs_len || cut == vs.len() || frame_boundary(ty, cut))) {
                     continue;
                 }
                 for live_first in [false, true] {
